@@ -1,0 +1,171 @@
+//go:build verif
+
+// Verification hooks. This file is only compiled with the "verif" build tag
+// and only adds accessors; it does not change any behaviour of the package.
+
+package larking
+
+import (
+	"fmt"
+	"sort"
+	"strings"
+
+	"google.golang.org/grpc"
+	"google.golang.org/protobuf/reflect/protoreflect"
+)
+
+// VerifRegisterService is RegisterService returning the error instead of
+// calling log.Fatalf.
+func VerifRegisterService(m *Mux, sd *grpc.ServiceDesc, ss interface{}) error {
+	return m.registerService(sd, ss)
+}
+
+// VerifSnapshot returns the currently published routing state (nil before
+// the first registration). The value is opaque; pass it to VerifFingerprint.
+func VerifSnapshot(m *Mux) interface{} {
+	s := m.loadState()
+	if s == nil {
+		return nil
+	}
+	return s
+}
+
+// VerifSameSnapshot reports whether two values returned by VerifSnapshot are
+// the same published object.
+func VerifSameSnapshot(a, b interface{}) bool {
+	sa, _ := a.(*state)
+	sb, _ := b.(*state)
+	return sa == sb
+}
+
+// VerifFingerprint computes a structural fingerprint of a snapshot returned by
+// VerifSnapshot: a sorted walk of the routing trie, the handler lists and the
+// connection lists, including pointer identities of methods and handlers.
+func VerifFingerprint(snap interface{}) string {
+	s, _ := snap.(*state)
+	if s == nil {
+		return "nil"
+	}
+	var b strings.Builder
+	b.WriteString("path:")
+	verifWritePath(&b, s.path)
+
+	names := make([]string, 0, len(s.handlers))
+	for name := range s.handlers {
+		names = append(names, name)
+	}
+	sort.Strings(names)
+	b.WriteString("\nhandlers:")
+	for _, name := range names {
+		fmt.Fprintf(&b, "%s=[", name)
+		for _, h := range s.handlers[name] {
+			fmt.Fprintf(&b, "%p:%s:%s,", h, h.method, h.desc.FullName())
+		}
+		b.WriteString("]")
+	}
+
+	var conns []string
+	for cc, cl := range s.conns {
+		var cb strings.Builder
+		fmt.Fprintf(&cb, "%p:%x:[", cc, cl.fdHash)
+		for _, h := range cl.handlers {
+			fmt.Fprintf(&cb, "%p,", h)
+		}
+		cb.WriteString("]")
+		conns = append(conns, cb.String())
+	}
+	sort.Strings(conns)
+	b.WriteString("\nconns:")
+	b.WriteString(strings.Join(conns, ";"))
+	return b.String()
+}
+
+func verifFields(fds []protoreflect.FieldDescriptor) string {
+	var s []string
+	for _, fd := range fds {
+		if fd == nil {
+			s = append(s, "<nil>")
+			continue
+		}
+		s = append(s, string(fd.FullName()))
+	}
+	return strings.Join(s, ">")
+}
+
+func verifWriteMethod(b *strings.Builder, m *method) {
+	if m == nil {
+		b.WriteString("<nil>")
+		return
+	}
+	fmt.Fprintf(b, "%p:%s:%s:body=%s:has=%v:resp=%s:vars=", m, m.name, m.desc.FullName(), verifFields(m.body), m.hasBody, verifFields(m.resp))
+	for _, v := range m.vars {
+		fmt.Fprintf(b, "(%s)", verifFields(v))
+	}
+}
+
+func verifWritePath(b *strings.Builder, p *path) {
+	if p == nil {
+		b.WriteString("<nil>")
+		return
+	}
+	b.WriteString("{")
+	keys := make([]string, 0, len(p.segments))
+	for k := range p.segments {
+		keys = append(keys, k)
+	}
+	sort.Strings(keys)
+	for _, k := range keys {
+		fmt.Fprintf(b, "S%q:", k)
+		verifWritePath(b, p.segments[k])
+	}
+	for i, v := range p.variables {
+		fmt.Fprintf(b, "V%d%q:", i, v.name)
+		verifWritePath(b, v.next)
+	}
+	verbs := make([]string, 0, len(p.methods))
+	for k := range p.methods {
+		verbs = append(verbs, k)
+	}
+	sort.Strings(verbs)
+	for _, k := range verbs {
+		fmt.Fprintf(b, "M%q:", k)
+		verifWriteMethod(b, p.methods[k])
+	}
+	if p.methodAll != nil {
+		b.WriteString("M*:")
+		verifWriteMethod(b, p.methodAll)
+	}
+	b.WriteString("}")
+}
+
+// VerifRoutes lists every (verb, template-shape, method name) reachable in a
+// snapshot, sorted. Template shapes are rebuilt from the trie edges.
+func VerifRoutes(snap interface{}) []string {
+	s, _ := snap.(*state)
+	if s == nil {
+		return nil
+	}
+	var out []string
+	var walk func(p *path, prefix string)
+	walk = func(p *path, prefix string) {
+		for k, m := range p.methods {
+			out = append(out, k+" "+prefix+" "+m.name)
+		}
+		if p.methodAll != nil {
+			out = append(out, "* "+prefix+" "+p.methodAll.name)
+		}
+		for k, n := range p.segments {
+			walk(n, prefix+k)
+		}
+		for _, v := range p.variables {
+			walk(v.next, prefix+"/{"+v.name+"}")
+		}
+	}
+	walk(s.path, "")
+	sort.Strings(out)
+	return out
+}
+
+// VerifHTTPBodyStreamCodec returns the unexported stream codec used for
+// google.api.HttpBody request/response bodies.
+func VerifHTTPBodyStreamCodec() StreamCodec { return codecHTTPBody{} }
